@@ -451,16 +451,45 @@ fn run_set<const N: usize>(rng: &mut Rng, rep: &mut Report, sc: &Scenario, n_que
         }
         let (Ok(prov_f), Ok(prov_t)) = (provider(&g_real), provider(&g_t)) else { rep.count("harness.input_rejected_by_checked_constructor"); continue };
         let (Ok(nf), Ok(nt)) = (Namespace::<N>::new(f), Namespace::<N>::new(t)) else { rep.count("harness.namespace"); continue };
-        let built = guard(|| -> anyhow::Result<_> { Ok((q.remapper_a(nf, nt)?, q.remapper_a(nt, nf)?)) });
-        let Some((ra, rra)) = settle(rep, "remapper_a", &Query::Class { name: String::new(), on_b: false }, built) else { continue };
+        // Entry points: `remapper_a(from, to)` / `remapper_b(from, to, inh)` and, for two namespaces in the direction first -> second,
+        // the short cuts `remapper_a_first_to_second()` / `remapper_b_first_to_second(inh)` (every second such pair).
+        let short_cut: Option<&Mappings<2, ()>> = if f == 0 && t == 1 && rng.chance(1, 2) { (&q as &dyn std::any::Any).downcast_ref::<Mappings<2, ()>>() } else { None };
+        if short_cut.is_some() { rep.count("entry.first_to_second_short_cuts"); } else { rep.count("entry.remapper_a/b(from, to)"); }
+        // The provider of the from namespace is, for every third pair, not built from the model but obtained the way a user gets
+        // it: the provider of the to namespace translated by `JarSuperProv::remap` with the to -> from remapper. Only when the
+        // class-by-class translation of the model (reference remapper) reproduces the from-namespace graph exactly (every class of
+        // the graph named in both namespaces or in neither), and never for the canaries.
+        let want_translated = canary == Canary::None && rng.chance(1, 3) && g_t.map_names(&|c| rev.class(c).to_string()).providers == g_f.providers;
+        type BoxA<'x> = Box<dyn ARemapper + 'x>;
+        let built = guard(|| -> anyhow::Result<(BoxA, BoxA, Option<Vec<JarSuperProv>>)> {
+            let back = q.remapper_a(nt, nf)?;
+            let translated = if want_translated { Some(JarSuperProv::remap(&back, &prov_t)?) } else { None };
+            let there: BoxA = match short_cut { Some(q2) => Box::new(q2.remapper_a_first_to_second()?), None => Box::new(q.remapper_a(nf, nt)?) };
+            Ok((there, Box::new(back), translated))
+        });
+        let Some((ra, rra, translated)) = settle(rep, "remapper_a", &Query::Class { name: String::new(), on_b: false }, built) else { continue };
+        let (ra, rra): (&dyn ARemapper, &dyn ARemapper) = (&*ra, &*rra);
+        let prov_f = match translated {
+            Some(tr) => {
+                rep.count("provider.from_namespace_obtained_through_JarSuperProv::remap");
+                let same = tr.len() == prov_f.len() && tr.iter().zip(&prov_f).all(|(a, b)| a.super_classes.len() == b.super_classes.len() && a.super_classes.iter().zip(&b.super_classes).all(|((ka, va), (kb, vb))| ka == kb && va.iter().eq(vb.iter())));
+                if !same { rep.count("provider.translated_provider_differs_from_the_model's (observed only; judged through the answers of the remapper built on it)"); }
+                tr
+            }
+            None => prov_f,
+        };
         let ctxj = || if lean { json!({"from": f, "to": t}) } else { json!({"from": f, "to": t, "namespaces": N, "set": sc.maps.render(), "super_types(from namespace)": format!("{:?}", g_f.providers)}) };
         let refs = Refs { fwd: &fwd, rev: &rev, g: &g_f };
         let pc = PairCtx { pool: class_pool(sc, f, t), keys: fwd.all_member_keys(), tr: RefTranslate::get(&sc.maps, f) };
         // single provider given directly, several as Vec<JarSuperProv>; none at all as NoSuperClassProvider
         macro_rules! with_b { ($pf:expr, $pt:expr) => {{
-            let built = guard(|| -> anyhow::Result<_> { Ok((q.remapper_b(nf, nt, $pf)?, q.remapper_b(nt, nf, $pt)?)) });
+            type BoxB<'x> = Box<dyn BRemapper + 'x>;
+            let built = guard(|| -> anyhow::Result<(BoxB, BoxB)> {
+                let there: BoxB = match short_cut { Some(q2) => Box::new(q2.remapper_b_first_to_second($pf)?), None => Box::new(q.remapper_b(nf, nt, $pf)?) };
+                Ok((there, Box::new(q.remapper_b(nt, nf, $pt)?)))
+            });
             if let Some((rb, rrb)) = settle(rep, "remapper_b", &Query::Class { name: String::new(), on_b: true }, built) {
-                let real = Real { a: &ra, b: &rb, rev_a: &rra, rev_b: &rrb };
+                let real = Real { a: ra, b: &*rb, rev_a: rra, rev_b: &*rrb };
                 for _ in 0..per_pair { if deadline.is_some_and(|d| std::time::Instant::now() >= d) { break; } let qu = gen_query(rng, sc, &fwd, f, &pc); eval(rep, &qu, &real, &refs, &ctxj); }
             }
         }}}
@@ -680,6 +709,8 @@ fn main() {
         meta.oblige("all eight member APIs called", rep.seen_n("apis") == 8);
         meta.oblige("round trips on classes, descriptors and members", rep.get("roundtrip.class") > 0 && rep.get("roundtrip.descriptor") > 0 && rep.get("roundtrip.member") > 0);
         meta.oblige("no generated input was rejected by a checked constructor / no harness conversion failed", rep.get("harness.input_rejected_by_checked_constructor") + rep.get("harness.to_quill_failed") + rep.get("harness.bad_generated_descriptor") == 0);
+        meta.oblige("entry points: remapper_a/b(from, to) and the first_to_second short cuts (>= 100 pairs each)", rep.get("entry.first_to_second_short_cuts") >= 100 && rep.get("entry.remapper_a/b(from, to)") >= 100);
+        meta.oblige("pairs whose from-namespace provider was obtained through JarSuperProv::remap (>= 100)", rep.get("provider.from_namespace_obtained_through_JarSuperProv::remap") >= 100);
         meta.oblige("2, 3 and 4 namespaces", (2..=4).all(|n| rep.get(&format!("namespaces.{n}")) > 0));
         if ctx.tier == Tier::Thorough {
             let (status, ub) = run_miri(&ctx, 300);
